@@ -81,6 +81,17 @@ reg('C11', 'exploration',
     TB + 'Value axis is a finite alphabet: integer-lattice directions and their neighbourhoods, not all real vectors.',
     'bounded exhaustive enumeration of kernels x pair families against __float128 atan2 reference', 'DESIGN.md section 7 C11')
 
+reg('C09', 'exploration',
+    'Bounded exhaustive exploration of the hand-written component formulas: every operation and operand-shape combination of the four '
+    'vector/tensor classes x 3 numeric types on COMPLETE small-integer grids (all pairs of {-3..3}^3 vectors, all 15625 symmetric dyads '
+    'over {-2..2}^6, all 19683 dyads over {-1,0,1}^9, all pairs for SymmetricDyad*SymmetricDyad over {-1,0,1}^6, mixed and Dyad*Dyad '
+    'products over complete {0,1}^9 grids and basis/generic partners; thorough: all 3.9e8 pairs of {-1,0,1}^9), demanded EXACTLY '
+    'against an index-loop reference in integer arithmetic; Inverse under power-of-two scalings absent iff the integer determinant is '
+    'zero; plus generic real tensors to 4 ulp of the sum of |terms| against __float128. Each formula is a multilinear polynomial of '
+    'degree <= 3 per slot, so agreement on these grids identifies it.',
+    TB + 'Real-valued inputs are a finite generic sample used only for the rounding bound; the exactness claim rests on the grids.',
+    'exhaustive integer-grid enumeration against exact index-loop reference (bounded exhaustive exploration)', 'DESIGN.md section 7 C09')
+
 PENDING = 'check not built yet in this session (planned, see DESIGN.md section 7); not a statement that model checking cannot apply'
 
 
